@@ -238,7 +238,8 @@ Definition tbl_internal (tbl : list (str * bool)) (h : str) : bool :=
 Record url_case := UrlCase {
   u_ca : str; u_test : str; u_use_test : bool;
   u_ptbl : list (str * option (str * str));
-  u_itbl : list (str * bool)
+  u_itbl : list (str * bool);     (* host -> SubjectIsInternal (the oracle the model is fed with) *)
+  u_rtbl : list (str * bool)      (* host -> internal by the harness's independent reading *)
 }.
 
 Definition url_model (u : url_case) : option str :=
@@ -247,11 +248,12 @@ Definition url_model (u : url_case) : option str :=
 Definition opt_str_eqb (a b : option str) : bool :=
   match a, b with Some x, Some y => str_eqb x y | None, None => true | _, _ => false end.
 
-(** accepted => the directory, read by the rule, is HTTPS or internal *)
+(** accepted => the directory, read by the rule, is HTTPS or — judged by the independent
+    reading of "internal address", not by the implementation's — internal *)
 Definition url_spec (u : url_case) (obs : option str) : bool :=
   match obs with
   | None => true
-  | Some d => secure (tbl_parse (u_ptbl u)) (tbl_internal (u_itbl u)) d
+  | Some d => secure (tbl_parse (u_ptbl u)) (tbl_internal (u_rtbl u)) d
   end.
 
 (** kind 2: contacts seen by the recording proxy: (plain HTTP?, host internal?) *)
@@ -408,8 +410,8 @@ Definition get_parsed : dec (option (str * str)) :=
 Definition get_url_case : dec url_case :=
   (c <- get_str ;; t <- get_str ;; u <- get_bool ;;
    pt <- get_list (get_pair get_str get_parsed) ;;
-   it <- get_list (get_pair get_str get_bool) ;;
-   ret (UrlCase c t u pt it)).
+   it <- get_list (h <- get_str ;; i <- get_bool ;; r <- get_bool ;; ret (h, (i, r))) ;;
+   ret (UrlCase c t u pt (map (fun '(h, (i, _)) => (h, i)) it) (map (fun '(h, (_, r)) => (h, r)) it))).
 
 Inductive case :=
 | CHist (evs : list event) (f : final)
